@@ -4,7 +4,7 @@ import os, time
 from lib import vlib
 from lib.vlib import go_overlay_test, read_ndjson, sub, tlc, tlc_require_ok
 from checks.v2common import Acc
-from checks.v1common import trace_v1
+from checks.v1common import trace_v1, library_panic
 PID = "C15"
 SRC = ["common/util_test.go", "serializer/lic_driver_test.go"]
 ACCESS = {"zz_verif_access.go": os.path.join(vlib.OVERLAY, "access/root_access.go")}
@@ -64,6 +64,8 @@ def run():
             v.fail("loadfail", r)
         if r.get("ev") == "keys" and not r["ok"]:
             v.fail("keys", r)
+    if rc != 0:
+        library_panic(v, txt, "serializer driver")      # a panic inside the library (not the driver) is the violation itself
     if rc != 0 and not v.violations:
         raise vlib.Inconclusive("C15 driver ended abnormally:\n" + txt[-3000:])
     lines = trace_v1(v, acc, recs, "archive round trip")
